@@ -75,12 +75,49 @@ def vector_strategy(tier):
     return s()
 
 
+def decimal_strategy(tier):
+    """Values with one decimal place (not exactly representable in binary, let alone float32): the definitions
+    must still hold to 1e-9; degenerate (undefined or nearly undefined) references are not judged here."""
+    maxlen = 30 if tier == "quick" else 200
+    v = st.integers(-150, 150).map(lambda i: i / 10.0)
+
+    @st.composite
+    def s(draw):
+        n = draw(st.integers(2, maxlen))
+        o = draw(st.lists(v, min_size=n, max_size=n))
+        f = draw(st.lists(v, min_size=n, max_size=n))
+        return {"cls": "decimal", "obs": o, "fcst": f, "agg": draw(st.sampled_from(AGGS)), "decimal": True}
+    return s()
+
+
 def _nonfinite(x):
     try:
         x = float(x)
     except Exception:
         return False
     return math.isnan(x) or math.isinf(x)
+
+
+def _well_conditioned(name, pairs):
+    o = [p[0] for p in pairs]
+    f = [p[1] for p in pairs]
+    n = len(pairs)
+    mo = sum(o) / n
+    mf = sum(f) / n
+    vo = sum((x - mo) ** 2 for x in o) / n
+    vf = sum((x - mf) ** 2 for x in f) / n
+    if name in ("corr", "rankcorr", "kendallcorr", "kge", "nsec", "nnsec", "alphaindex"):
+        if vo < 1e-3 or vf < 1e-3:
+            return False
+    if name in ("kge", "mbias", "ratio") and abs(mo) < 1e-3:
+        return False
+    if name == "dmb" and abs(mf) < 1e-3:
+        return False
+    if name == "rmsf":
+        return all(a > 0 and b > 0 for a, b in pairs)
+    if name in ("ef", "leps", "rankcorr", "kendallcorr", "derror"):
+        return True
+    return True
 
 
 def check_vector(case, ctx):
@@ -121,6 +158,13 @@ def check_vector(case, ctx):
             if ref is not None and isinstance(ref, float) and math.isnan(ref):
                 ref = None
             key_agg = "" if agg == "mean" else "/" + ("quantile" if agg[0].isdigit() else agg)
+            if case.get("decimal"):
+                # non-dyadic values: only well-conditioned references are judged
+                if ref is None or _nonfinite(got) or not _well_conditioned(name, pairs):
+                    continue
+                if not cmpx.close(got, ref, 1e-8):
+                    ctx.fail("C05/def/%s%s" % (name, key_agg), sub, "%s(agg=%s) = %r, definition gives %r (decimal values)" % (name, agg, got, ref))
+                continue
             if ref is None:
                 # with another aggregator than the mean, terms that are undefined may legitimately be skipped
                 if not _nonfinite(got) and agg == "mean":
@@ -238,5 +282,6 @@ def check_dataset(case, ctx):
 def campaigns(tier):
     return [
         Hyp("vectors", vector_strategy, check_vector, quick=4800, thorough=100000, budget_quick=50, budget_thorough=1500),
+        Hyp("vectors-decimal", decimal_strategy, check_vector, quick=1600, thorough=40000, budget_quick=40, budget_thorough=900),
         Hyp("datasets", ds_strategy, check_dataset, quick=1200, thorough=30000, budget_quick=50, budget_thorough=1200),
     ]
